@@ -87,6 +87,9 @@ struct SeedInput {
 #[serde(rename_all = "snake_case")]
 pub enum Mut {
     None,
+    /// the bytes are intact, but from offset `at` on the medium answers every read with an error of `ERR_KINDS[kind]`
+    /// (a stream that turns corrupt / a device that stays broken)
+    ErrFrom { at: usize, kind: u8 },
     Trunc { at: usize },
     /// big-endian field `span` set to `val` (`what` names the boundary value)
     Set { span: u32, val: u64, what: String },
@@ -123,6 +126,11 @@ pub fn units(tier: Tier, seed: u64) -> Vec<UnitSpec> {
     // nested resolutions must hold per class file, not per load (missed seeded change C16-4)
     for d in [1u32, 2, 40, 400] {
         u.push(UnitSpec::Special { name: "dynamic-dag".into(), depth: d });
+    }
+    // names with an unpaired surrogate (legal modified UTF-8, not printable as UTF-8): error paths that format such a
+    // name must not panic (missed seeded change C16-9); depth = which names carry one
+    for d in [1u32, 2, 3] {
+        u.push(UnitSpec::Special { name: "surrogate-names".into(), depth: d });
     }
     let depths: &[u32] = match tier {
         Tier::Quick => &[70, 3_000, 60_000],
@@ -377,6 +385,45 @@ fn special(name: &str, depth: u32) -> SeedInput {
             push_u16(&mut bm, 12);
             let b = assemble(&cp, 19, 2, 4, &[], 0, &m, 1, &attr(8, &bm), 1);
             class_seed(b, vec![])
+        }
+        "surrogate-names" => {
+            // 1 this-name 2 Class1 3 "java/lang/Object" 4 Class3 5 field name 6 "I" 7 method name 8 "()V" 9 "Code"
+            // 10 "SourceFile" 11 file name
+            let raw = |prefix: &str, lone: bool| -> Vec<u8> {
+                let mut b = prefix.as_bytes().to_vec();
+                if lone {
+                    b.extend_from_slice(&[0xED, 0xA0, 0x80]); // U+D800 alone
+                    b.push(b'x');
+                }
+                let mut v = vec![];
+                utf8(&mut v, &b);
+                v
+            };
+            let cp = vec![raw("p/A", depth & 1 != 0), e_class(1), e_utf8("java/lang/Object"), e_class(3), raw("f", depth & 2 != 0), e_utf8("I"), raw("m", depth & 2 != 0), e_utf8("()V"), e_utf8("Code"), e_utf8("SourceFile"), raw("A.java", depth & 2 != 0)];
+            let mut f = vec![];
+            push_u16(&mut f, 0x0002);
+            push_u16(&mut f, 5);
+            push_u16(&mut f, 6);
+            push_u16(&mut f, 0);
+            let mut code = vec![];
+            push_u16(&mut code, 1);
+            push_u16(&mut code, 1);
+            push_u32(&mut code, 5);
+            code.extend_from_slice(&[0x03, 0x57, 0xa7, 0x00, 0x03]); // iconst_0 pop goto +3 (to the end: damaged by mutations)
+            code[2] = 0xb1;
+            code[3] = 0x00;
+            code[4] = 0xb1;
+            push_u16(&mut code, 0);
+            push_u16(&mut code, 0);
+            let mut m = vec![];
+            push_u16(&mut m, 0x0001);
+            push_u16(&mut m, 7);
+            push_u16(&mut m, 8);
+            push_u16(&mut m, 1);
+            m.extend_from_slice(&attr(9, &code));
+            let mut sf = vec![];
+            push_u16(&mut sf, 11);
+            class_seed(assemble(&cp, 12, 2, 4, &f, 1, &m, 1, &attr(10, &sf), 1), vec![])
         }
         "dynamic-dag" => {
             const LEVELS: u16 = 16;
@@ -745,6 +792,16 @@ fn enumerate(seed: &SeedInput, tier: Tier, r: &mut Rng) -> Vec<Mut> {
             m.push(Mut::Trunc { at: n / 200 * k });
         }
     }
+    // (a') a medium that stays broken from an offset on, per error kind: a reader loop that treats an error as
+    // "skip and go on" never ends there (missed seeded change C16-8)
+    if n > 0 && seed.kind != Kind::Desc && seed.kind != Kind::Nests {
+        let k = if thorough { 24 } else { 6 };
+        for kind in 0..crate::simio::ERR_KINDS.len() as u8 {
+            for j in 0..k {
+                m.push(Mut::ErrFrom { at: (j * n / k).min(n - 1), kind });
+            }
+        }
+    }
     // (b) every field of the offset map at boundary values (complete per seed input)
     for (i, s) in seed.spans.iter().enumerate() {
         let cur = cur_value(&seed.bytes, s);
@@ -817,7 +874,7 @@ fn enumerate(seed: &SeedInput, tier: Tier, r: &mut Rng) -> Vec<Mut> {
 fn apply(seed: &SeedInput, mu: &Mut) -> Vec<u8> {
     let b = &seed.bytes;
     match mu {
-        Mut::None => b.clone(),
+        Mut::None | Mut::ErrFrom { .. } => b.clone(),
         Mut::Trunc { at } => b[..(*at).min(b.len())].to_vec(),
         Mut::Set { span, val, .. } => {
             let mut o = b.clone();
@@ -999,6 +1056,7 @@ fn apply(seed: &SeedInput, mu: &Mut) -> Vec<u8> {
 fn mut_class(seed: &SeedInput, mu: &Mut) -> String {
     match mu {
         Mut::None => "pristine".into(),
+        Mut::ErrFrom { kind, .. } => format!("err-from:{}", crate::simio::ERR_KINDS[*kind as usize % crate::simio::ERR_KINDS.len()]),
         Mut::Trunc { .. } => "trunc".into(),
         Mut::Set { span, what, .. } => {
             let p = seed.spans.get(*span as usize).map(|s| s.path.as_str()).unwrap_or("?");
@@ -1088,6 +1146,21 @@ fn guarded<T>(input_len: usize, f: impl FnOnce() -> T) -> (Result<T, String>, sa
     (r, v)
 }
 
+thread_local! {
+    /// the plan of the medium the next `run_op` reads its input through (plain unless the mutation is a medium fault)
+    static MEDIUM: std::cell::RefCell<IoPlan> = std::cell::RefCell::new(IoPlan::plain());
+}
+fn set_medium(mu: &Mut) {
+    let plan = match mu {
+        Mut::ErrFrom { at, kind } => IoPlan { faults: vec![crate::simio::Fault::EioAtOffset { off: *at as u64 }], err_kind: kind + 1, ..IoPlan::plain() },
+        _ => IoPlan::plain(),
+    };
+    MEDIUM.with(|m| *m.borrow_mut() = plan);
+}
+fn medium() -> IoPlan {
+    MEDIUM.with(|m| m.borrow().clone())
+}
+
 fn run_op(op: usize, input: &[u8], scratch: &std::path::Path) -> (OpOutcome, Vec<Verdict>) {
     let name = OPS[op];
     let mut out = OpOutcome::default();
@@ -1113,7 +1186,7 @@ fn run_op(op: usize, input: &[u8], scratch: &std::path::Path) -> (OpOutcome, Vec
     }
     match op {
         0 => {
-            let mut r = SimReader::new(input, &IoPlan::plain());
+            let mut r = SimReader::new(input, &medium());
             let (res, al) = guarded(n, || duke::read_class(&mut r));
             if r.fuel_exhausted {
                 vs.push(Verdict { class: "runaway", path: "read_class".into(), detail: format!("{} medium calls for {} bytes", r.stats.calls, n) });
@@ -1127,10 +1200,26 @@ fn run_op(op: usize, input: &[u8], scratch: &std::path::Path) -> (OpOutcome, Vec
                 let wres = no_panic(|| duke::write_class(&mut sink, &tree));
                 let wal = sandbox::disarm();
                 let _ = judge!(wres, wal, "write_class(read_class)");
+                // and into a sink that stops accepting bytes (Ok(0), the answer of a full fixed-size buffer): the writer
+                // must end, with an error, not spin (missed seeded change C16-7); one accepted input in four
+                if crate::rng::fnv(input) % 4 == 0 || n < 64 {
+                    let at_call = (crate::rng::fnv(input) >> 8) % 6;
+                    let mut w = crate::simio::SimWriter::new(&IoPlan { faults: vec![crate::simio::Fault::WriteZero { at_call: at_call as u32 }], ..IoPlan::plain() });
+                    crate::simio::SINK_RUNAWAY.with(|c| c.set(false));
+                    let zres = no_panic(|| duke::write_class(&mut w, &tree));
+                    if crate::simio::SINK_RUNAWAY.with(|c| c.replace(false)) {
+                        vs.push(Verdict { class: "runaway", path: "write_class(read_class):sink-accepts-nothing".into(), detail: format!("more than {} calls on a sink that answers Ok(0) from call {at_call} on", crate::simio::WRITER_FUEL) });
+                    }
+                    match zres {
+                        Err(pm) => vs.push(Verdict { class: "panic", path: format!("write_class(read_class):sink-accepts-nothing:{}", msg_class(&pm)), detail: pm }),
+                        Ok(Ok(())) if !sink.is_empty() && w.stats.fired.contains(&"write_zero") => vs.push(Verdict { class: "writer-ok-with-incomplete-sink", path: "write_class(read_class):sink-accepts-nothing".into(), detail: format!("Ok although the sink holds {} of {} bytes", w.accepted().len(), sink.len()) }),
+                        _ => {}
+                    }
+                }
             }
         }
         1 => {
-            let mut r = SimReader::new(input, &IoPlan::plain());
+            let mut r = SimReader::new(input, &medium());
             let (res, al) = guarded(n, || duke::read_class_multi(&mut r, ()));
             if r.fuel_exhausted {
                 vs.push(Verdict { class: "runaway", path: "read_class_multi".into(), detail: format!("{} medium calls for {} bytes", r.stats.calls, n) });
@@ -1140,7 +1229,7 @@ fn run_op(op: usize, input: &[u8], scratch: &std::path::Path) -> (OpOutcome, Vec
             }
         }
         2 | 3 => {
-            let mut r = SimReader::new(input, &IoPlan::plain());
+            let mut r = SimReader::new(input, &medium());
             let (res, al) = guarded(n, || {
                 if op == 2 {
                     quill::tiny_v2::read::<2, Ns>(&mut r).map(|_| ())
@@ -1156,7 +1245,7 @@ fn run_op(op: usize, input: &[u8], scratch: &std::path::Path) -> (OpOutcome, Vec
             }
         }
         4 => {
-            let mut r = SimReader::new(input, &IoPlan::plain());
+            let mut r = SimReader::new(input, &medium());
             let (res, al) = guarded(n, || quill::tiny_v2_diff::verif_read(&mut r).map(|_| ()));
             if r.fuel_exhausted {
                 vs.push(Verdict { class: "runaway", path: name.into(), detail: "fuel".into() });
@@ -1175,7 +1264,7 @@ fn run_op(op: usize, input: &[u8], scratch: &std::path::Path) -> (OpOutcome, Vec
             }
         }
         6 => {
-            let mut r = SimReader::new(input, &IoPlan::plain());
+            let mut r = SimReader::new(input, &medium());
             let (res, al) = guarded(n, || {
                 let mut q: quill::tree::mappings::Mappings<2, Ns> = quill::tree::mappings::Mappings::from_namespaces(["a", "b"])?;
                 quill::enigma_file::read_into(&mut r, &mut q)
@@ -1362,6 +1451,7 @@ pub fn child_main(args: &[String]) -> i32 {
                         continue;
                     }
                     write_progress(&progress, unit, m, op);
+                    set_medium(mu);
                     let (o, vs) = run_op(op, &input, &scratch);
                     ul.evals += 1;
                     dg.u64(d);
@@ -1418,6 +1508,7 @@ pub fn one_main(args: &[String]) -> i32 {
     let scratch = std::env::temp_dir();
     let h = std::thread::Builder::new().stack_size(8 << 20).spawn(move || {
         let input = plan.input();
+        set_medium(&plan.recipe.mutation);
         let (_o, vs) = run_op(plan.op, &input, &scratch);
         let stdout = std::io::stdout();
         let mut so = stdout.lock();
